@@ -109,7 +109,11 @@ impl Search {
     /// ```
     pub fn search(&mut self, evaluator: &impl Evaluator, max_depth: Option<Depth>) {
         // Uses a heuristic to determine the maximum time to spend on a move
+        #[cfg(rce_verif)]
+        crate::verif_hooks::sched_point("search.enter");
         self.start();
+        #[cfg(rce_verif)]
+        crate::verif_hooks::sched_point("search.started");
 
         self.limits.time_management_timer = match self.board.current_turn {
             Color::White => {
@@ -127,6 +131,8 @@ impl Search {
         self.iter_deep(evaluator, max_depth);
 
         self.stop();
+        #[cfg(rce_verif)]
+        crate::verif_hooks::sched_point("search.exit");
     }
 
     /// Iterates through the search at increasing depths until the search is stopped or the maximum depth is reached
@@ -154,9 +160,15 @@ impl Search {
 
             let pv = self.get_pv(depth);
             self.log_uci_info(depth, Some(start.elapsed().as_millis()), &pv);
+            #[cfg(rce_verif)]
+            crate::verif_hooks::sched_point("search.iter_done");
         }
 
+        #[cfg(rce_verif)]
+        crate::verif_hooks::sched_point("search.pre_bestmove");
         self.log(format!("bestmove {}", self.info.best_move.unwrap()).as_str());
+        #[cfg(rce_verif)]
+        crate::verif_hooks::sched_point("search.post_bestmove");
     }
 
     /// Initializes the alpha-beta search and returns the best move found
@@ -274,6 +286,14 @@ impl Search {
                         best_ply,
                     },
                 );
+            #[cfg(rce_verif)]
+            crate::verif_hooks::tt_inserted(
+                "root",
+                self.board.zkey,
+                self.info.nodes,
+                self.limits.nodes,
+                self.is_running(),
+            );
 
             self.info.best_score = Some(alpha);
             self.info.best_move = Some(best_ply);
@@ -325,6 +345,8 @@ impl Search {
             return 0; // Avoid threefold repetition at first repeitition
         }
 
+        #[cfg(rce_verif)]
+        crate::verif_hooks::tt_gate();
         // Check if we have more information in the TTable than we have already reached in this search
         if let Some(entry) = TRANSPOSITION_TABLE
             .read()
@@ -424,6 +446,14 @@ impl Search {
                             best_ply: mv,
                         },
                     );
+                #[cfg(rce_verif)]
+                crate::verif_hooks::tt_inserted(
+                    "cutoff",
+                    self.board.zkey,
+                    self.info.nodes,
+                    self.limits.nodes,
+                    self.is_running(),
+                );
 
                 self.store_killers(mv);
 
@@ -461,6 +491,14 @@ impl Search {
                     best_ply,
                 },
             );
+        #[cfg(rce_verif)]
+        crate::verif_hooks::tt_inserted(
+            "node",
+            self.board.zkey,
+            self.info.nodes,
+            self.limits.nodes,
+            self.is_running(),
+        );
 
         alpha
     }
@@ -770,6 +808,13 @@ impl Search {
     /// ```
     pub fn is_running(&self) -> bool {
         self.running.load(Ordering::Relaxed)
+    }
+
+    /// What the search would announce: (best move, best score, selective depth).
+    #[cfg(rce_verif)]
+    #[allow(dead_code)]
+    pub const fn verif_info(&self) -> (Option<Ply>, Option<Score>, Depth) {
+        (self.info.best_move, self.info.best_score, self.info.seldepth)
     }
 }
 
